@@ -13,6 +13,7 @@ import Sgz.Model.Version
 import Sgz.Model.Emul
 import Sgz.Model.Irregular
 import Sgz.Model.Xarray
+import Sgz.Model.SegyRaw
 /-!
 # Tie/Source — the model's arithmetic is the arithmetic of the source as it is now
 
@@ -541,12 +542,12 @@ theorem zslice_adv (g : Geo) (zb r : Nat) (hu : g.u = 8 * r) (hb1 : 4 ∣ g.b1) 
     unfold Gen.adv_sub_block
     rw [hu, hk1, Nat.mul_div_cancel_left _ (by decide : 0 < 4)]
     have : 4 * 4 * (4 * k1) * r = 8 * (k1 * (8 * r)) := by
-      simp only [Nat.mul_comm, Nat.mul_left_comm, Nat.mul_assoc]
+      simp only [Nat.mul_comm, Nat.mul_left_comm]
     rw [this, Nat.mul_div_cancel_left _ (by decide : 0 < 8)]
   have erow : g.P1 * 4 * 4 * r / 8 = (g.P1 / 4) * g.u := by
     rw [hu, hkp, Nat.mul_div_cancel_left _ (by decide : 0 < 4)]
     have : 4 * kp * 4 * 4 * r = 8 * (kp * (8 * r)) := by
-      simp only [Nat.mul_comm, Nat.mul_left_comm, Nat.mul_assoc]
+      simp only [Nat.mul_comm, Nat.mul_left_comm]
     rw [this, Nat.mul_div_cancel_left _ (by decide : 0 < 8)]
   refine ⟨rfl, rfl, esub, ?_, ?_, ?_⟩
   · intro id
@@ -558,5 +559,17 @@ theorem zslice_adv (g : Geo) (zb r : Nat) (hu : g.u = 8 * r) (hb1 : 4 ∣ g.b1) 
   · intro row
     unfold Gen.adv_src_lo
     rw [esub]
+
+/-! ### constants; the reduced-I/O SEG-Y reader -/
+
+theorem constants :
+    Gen.const_disk_block = 4096 ∧ Gen.const_segy_file_header = 3600 ∧ Gen.const_segy_text_header = 3200
+    ∧ Gen.const_segy_trace_header = 240 := ⟨rfl, rfl, rfl, rfl⟩
+
+/-- `MinimalInlineReader.read_line(i)`: the one range read -/
+theorem segyraw_read_line (nxl ns i : Nat) :
+    SegyRaw.readLine nxl ns i = (Gen.segyraw_seek Gen.const_segy_file_header i ns nxl,
+                                  Gen.segyraw_length Gen.const_segy_trace_header ns nxl) := by
+  unfold SegyRaw.readLine Gen.segyraw_seek Gen.segyraw_length Gen.const_segy_file_header Gen.const_segy_trace_header; rfl
 
 end Sgz.Tie
